@@ -19,12 +19,12 @@ type State struct {
 	pc     Term
 	dead   bool
 	probe  *[]string // non-nil: heap reads resolve to formal parameters hp!<key> (recursive spec function bodies)
-	leaves []Term // path conditions of the joined paths: pc implies their disjunction (used to case-split hard obligations)
+	leaves [][]Term // conjunctions; pc implies their disjunction (joined paths, used to case-split hard obligations)
 }
 
 func (s *State) clone() *State {
 	n := &State{vars: make(map[types.Object]Term, len(s.vars)), heap: make(map[string]Term, len(s.heap)), pc: s.pc, dead: s.dead}
-	n.leaves = append([]Term(nil), s.leaves...)
+	n.leaves = append([][]Term(nil), s.leaves...)
 	for k, v := range s.vars {
 		n.vars[k] = v
 	}
@@ -47,7 +47,7 @@ type Obligation struct {
 	Pos     string
 	Bounded int // >0: depends on a loop unrolled K times with an unwinding assumption
 	Smoke   bool
-	Splits  []Term
+	Splits  [][]Term
 	NSplit  int
 	// filled by the discharger
 	Res     SolverResult
@@ -125,6 +125,7 @@ type Exec struct {
 	nq             int
 	recInProgress  map[string]bool
 	recKeys        map[string][]string
+	usedLemmas     []string
 }
 
 type modLoc struct {
@@ -330,7 +331,7 @@ func (e *Exec) obligeNamed(st *State, name, kind, tag string, goal Term, desc st
 	}
 	e.syncCtx(st.pc.S)
 	e.obls = append(e.obls, &Obligation{Name: name, Func: e.fn.Key, Kind: kind, Tag: tag, NAssump: len(e.assumps), NDecl: len(e.decls),
-		PC: st.pc, Goal: goal, Desc: desc, Pos: e.pos(p), Bounded: e.boundedK, Splits: append([]Term(nil), st.leaves...)})
+		PC: st.pc, Goal: goal, Desc: desc, Pos: e.pos(p), Bounded: e.boundedK, Splits: append([][]Term(nil), st.leaves...)})
 }
 
 func (e *Exec) note(kind, what string) {
@@ -388,16 +389,33 @@ func (e *Exec) merge(states []*State) *State {
 	out.pc = npc
 	e.syncCtx(npc.S)
 	// leaf path conditions for case splitting
-	var leaves []Term
+	var leaves [][]Term
+	seen := map[string]bool{}
 	for _, s := range live {
 		if len(s.leaves) > 0 {
-			leaves = append(leaves, s.leaves...)
+			for _, l := range s.leaves {
+				c := append([]Term{s.pc}, l...)
+				if len(c) > 3 {
+					c = c[:3]
+				}
+				k := ""
+				for _, t := range c {
+					k += t.S + "&"
+				}
+				if !seen[k] {
+					seen[k] = true
+					leaves = append(leaves, c)
+				}
+			}
 		} else {
-			leaves = append(leaves, s.pc)
+			leaves = append(leaves, []Term{s.pc})
 		}
 	}
 	if len(leaves) > 16 {
-		leaves = pcs
+		leaves = nil
+		for _, p := range pcs {
+			leaves = append(leaves, []Term{p})
+		}
 	}
 	out.leaves = leaves
 	// variables
@@ -822,6 +840,9 @@ func (e *Exec) heapGet(st *State, key string) Term {
 	}
 	if t, ok := st.heap[key]; ok {
 		return t
+	}
+	if key == "alloc" {
+		return e.alloc0
 	}
 	m, ok := e.heapMetas[key]
 	if !ok {
